@@ -192,7 +192,9 @@ class Tensor:
             raise RuntimeError("Only floating point Tensors can require gradients")
         self._requires_grad = req_grad
         self._retain_grad = False
-        self._children = children
+        # results that are not tracked (no_grad, or no operand requires grad) keep no history,
+        # otherwise long-running untracked computations would keep every operand alive
+        self._children = children if req_grad else ()
         self._operation = operation
         self._name = name
         self._initialized = True
